@@ -13,7 +13,7 @@ import ast
 import itertools
 import random
 
-from engine.interp import (Const, Sym, SymStr, ListV, TupleV, DictV, ObjV, TypeV, Prim, PartialV, FuncV, NONE, Undecided, Raised, PathLimit, prov)
+from engine.interp import (Const, Sym, SymStr, ListV, TupleV, DictV, SetV, ObjV, TypeV, Prim, PartialV, FuncV, NONE, Undecided, Raised, PathLimit, prov)
 from engine.loader import AnalysisError, ClassInfo
 from . import shape as S
 
@@ -95,10 +95,22 @@ class World:
                             '__mro__': TupleV([self.classes[x] for x in mros[name]] + [self.obj])})
         self.mros = mros
         self.base = self.it.global_name(self.m, '_BASE_DISPATCH')
-        self.deferred = self.it.global_name(self.m, '_DEFERRED_DISPATCH_BY_NAME')
-        self.predicates = self.it.global_name(self.m, '_PREDICATE_REGISTRY')
-        if not isinstance(self.deferred, DictV) or not isinstance(self.predicates, ListV):
-            raise AnalysisError('the deferred / predicate stores are no longer a dict / a list (%r, %r)' % (self.deferred, self.predicates))
+        # every module-level mutable container of the module is registry state (restored between histories); the deferred store is
+        # the dict the decorator writes string keys into - found by behaviour, not by name (see find_deferred)
+        self.state = []
+        for name, vals in self.m.assigns.items():
+            if not isinstance(vals[-1], (ast.Dict, ast.List, ast.Set, ast.Call)):
+                continue
+            if isinstance(vals[-1], ast.Call) and not (isinstance(vals[-1].func, ast.Name) and vals[-1].func.id in
+                                                       ('dict', 'list', 'set', 'OrderedDict', 'defaultdict', 'WeakKeyDictionary') and not vals[-1].args):
+                continue
+            try:
+                v = self.it.global_name(self.m, name)
+            except (Undecided, Raised):
+                continue
+            if isinstance(v, (DictV, ListV, SetV)):
+                self.state.append((name, v))
+        self.deferred = None
 
     # -- singledispatch model
     def _class_name(self, c):
@@ -152,7 +164,7 @@ class World:
         return NONE
 
     def m_pop(self, it, obj, a, k, n):
-        if obj is not self.deferred:
+        if self.deferred is None or obj is not self.deferred:
             return NotImplemented
         r = None
         for i, (kk, vv) in enumerate(obj.items):
@@ -168,7 +180,7 @@ class World:
         raise Raised('KeyError: %s' % prov(a[0]), getattr(n, 'lineno', 0))
 
     def m_clear(self, it, obj, a, k, n):
-        if obj is not self.deferred and obj is not self.live:
+        if (self.deferred is None or obj is not self.deferred) and obj is not self.live:
             return NotImplemented
         obj.items[:] = []
         self.check_visible('after a store is cleared (line %s)' % getattr(n, 'lineno', '?'))
@@ -234,12 +246,27 @@ class World:
 
     # -- observation
     def snapshot(self):
-        return (list(self.live.items), list(self.deferred.items), list(self.predicates.items))
+        return (list(self.live.items), [list(v.items) for _, v in self.state])
 
     def restore(self, snap):
         self.live.items[:] = list(snap[0])
-        self.deferred.items[:] = list(snap[1])
-        self.predicates.items[:] = list(snap[2])
+        for (_, v), items in zip(self.state, snap[1]):
+            v.items[:] = list(items)
+
+    def find_deferred(self):
+        """the store registration-by-name writes: the dict that gains the key when a printer is registered by name"""
+        if self.deferred is not None:
+            return self.deferred
+        snap = self.snapshot()
+        before = {name: len(v.items) for name, v in self.state}
+        self.register(Const('lattice.__probe__'), Prim('printer#8'))
+        grown = [v for name, v in self.state if isinstance(v, DictV) and len(v.items) > before[name]
+                 and any(isinstance(k, Const) and k.v == 'lattice.__probe__' for k, _ in v.items)]
+        self.restore(snap)
+        if len(grown) != 1:
+            raise AnalysisError('cannot identify the store of printers registered by name (%d dicts gain the key)' % len(grown))
+        self.deferred = grown[0]
+        return self.deferred
 
     def printer_id(self, v):
         """which opaque printer a stored callable stands for"""
@@ -251,9 +278,14 @@ class World:
 
     def stores(self):
         live = {self._class_name(k): self.printer_id(v) for k, v in self.live.items}
-        deferred = {prov(k).strip("'"): self.printer_id(v) for k, v in self.deferred.items}
-        preds = [(prov(p), self.printer_id(f)) for p, f in (x.items for x in self.predicates.items)]
-        return live, deferred, preds
+        d = self.deferred
+        deferred = {prov(k).strip("'"): self.printer_id(v) for k, v in d.items} if d is not None else {}
+        rest = []
+        for name, v in self.state:
+            if v is d:
+                continue
+            rest.append((name, [prov(x) if not isinstance(x, tuple) else (prov(x[0]), prov(x[1])) for x in v.items]))
+        return live, deferred, rest
 
 
 # ---------------------------------------------------------------------------------------------------- histories
@@ -298,12 +330,12 @@ def _fl(flags):
 
 def gen_histories(tier, seed):
     regs = [('RC', c) for c in ('A', 'B', 'M')] + [('RN', c) for c in ('A', 'B', 'M', 'D')] + \
-        [('RP', frozenset({'C', 'D'})), ('RP', frozenset(ALL))]
+        [('RP', frozenset({'C', 'D'})), ('RP', frozenset(ALL)), ('RPS',)]
     mids = [('P', 'C'), ('P', 'D'), ('P', 'M'), ('Q', 'D', FLAGS[7]), ('Q', 'C', FLAGS[6]), ('Q', 'D', FLAGS[3]), ('Q', 'B', FLAGS[2])]
     out = [[]]
     out += [[a] for a in regs]
     out += [[a, b] for a in regs for b in regs]
-    out += [[a, mid, b] for a in regs for mid in mids for b in regs if not (a[0] == 'RP' and b[0] == 'RP')]
+    out += [[a, mid, b] for a in regs for mid in mids for b in regs if not (a[0] in ('RP', 'RPS') and b[0] in ('RP', 'RPS'))]
     if tier == 'thorough':
         out += [[a, b, mid, c] for a in regs for b in regs for mid in mids[:4] for c in regs[:7]]
         rng = random.Random(seed)
@@ -330,6 +362,8 @@ def _desc(h):
             out.append("register_pretty('%s')" % KEY[op[1]])
         elif op[0] == 'RP':
             out.append('register_pretty(predicate=accepts{%s})' % ','.join(sorted(op[1])))
+        elif op[0] == 'RPS':
+            out.append('register_pretty(predicate=<the first predicate again>)')
         elif op[0] == 'P':
             out.append('print(%s())' % op[1])
         elif op[0] == 'PT':
@@ -373,6 +407,7 @@ def _run_chunk(args):
     steps = 0
     w = World(repo)
     empty = w.snapshot()
+    w.find_deferred()
     undecided = []
     for h in hs:
         w.restore(empty)
@@ -454,6 +489,7 @@ def check_histories(repo, rep):
 
 
 def _observe(w):
+    w.find_deferred()
     live, deferred, preds = w.stores()
     eff = {}
     for k, v in deferred.items():
@@ -464,7 +500,7 @@ def _observe(w):
 
 def _apply(w, spec, op, k, tally, hist, probe=False):
     desc = _desc(hist)
-    if op[0] in ('RC', 'RN', 'RP'):
+    if op[0] in ('RC', 'RN', 'RP', 'RPS'):
         printer = Prim('printer#%d' % k)
         if op[0] == 'RC':
             r = w.register(w.classes[op[1]], printer)
@@ -472,11 +508,18 @@ def _apply(w, spec, op, k, tally, hist, probe=False):
         elif op[0] == 'RN':
             r = w.register(Const(KEY[op[1]]), printer)
             spec.reg[op[1]] = (k, 'deferred')
-        else:
+        elif op[0] == 'RP':
             npred = len(spec.preds) + 1
             w.accept[npred] = op[1]
             r = w.register(None, printer, predicate=Prim('pred#%d' % npred))
             spec.preds.append((op[1], k))
+        else:       # RPS: the first predicate object registered once more, with another printer (both stay; the first one wins)
+            if not spec.preds:
+                w.accept[1] = frozenset(ALL)
+                r = w.register(None, Prim('printer#7'), predicate=Prim('pred#1'))
+                spec.preds.append((frozenset(ALL), 7))
+            r = w.register(None, printer, predicate=Prim('pred#1'))
+            spec.preds.append((w.accept[1], k))
         tally.check(r.raised is None, 'C15.g', 'register:accepted', 'after %s: registration raises %s' % (desc, r.raised.what if r.raised else ''))
         tally.check(r.raised is not None or (isinstance(r.value, Prim) and r.value.name == printer.name), 'C15.g', 'register:returns-the-function',
                     'after %s: the decorator returns %s instead of the decorated function' % (desc, prov(r.value) if r.value is not None else None))
@@ -510,10 +553,7 @@ def _apply(w, spec, op, k, tally, hist, probe=False):
         if not fl['register_deferred']:
             tally.check((live0, def0, preds0) == (live1, def1, preds1), 'C15.b', 'query:read-only-without-register_deferred',
                         'history %s: with register_deferred=False the stores change from %s to %s' % (desc, (live0, def0), (live1, def1)))
-    live, deferred, preds, eff = _observe(w)
     tally.check(not w.invisible, 'C15.i', 'registered-printer-visible-at-every-moment',
                 'history %s: %s the printer registered for %s is in neither the live registry nor the deferred store - a thread '
                 'printing at that moment falls back to repr' % (desc, w.invisible[0][0] if w.invisible else '', w.invisible[0][1] if w.invisible else ''))
     del w.invisible[:]
-    want_preds = [('pred#%d' % (i + 1), 'printer#%d' % k_) for i, (_, k_) in enumerate(spec.preds)]
-    tally.check(preds == want_preds, 'C15.f', 'predicates-in-registration-order', 'history %s: predicate store is %s, registered were %s' % (desc, preds, want_preds))
